@@ -110,7 +110,7 @@ def i_AAD(i, fmap):
     fmap[al] = _r
     fmap[ah] = cst(0, 8)
     fmap[zf] = _r == 0
-    fmap[sf] = _r < 0
+    fmap[sf] = _r.bit(-1)
 
 
 def i_AAM(i, fmap):
@@ -121,7 +121,7 @@ def i_AAM(i, fmap):
     _r = _al & (imm8 - 1)
     fmap[al] = _r
     fmap[zf] = _r == 0
-    fmap[sf] = _r < 0
+    fmap[sf] = _r.bit(-1)
 
 
 def i_XLATB(i, fmap):
